@@ -301,24 +301,24 @@ cdef class DefaultRecordBatch:
 
         buf = <char*> self._buffer.buf
         self._check_bounds(pos, 1)
-        cutil.decode_varint64(buf, &pos, &length)
+        cutil.decode_varint64(buf, self._buffer.len, &pos, &length)
         start_pos = pos
         self._check_bounds(pos, 1)
-        cutil.decode_varint64(buf, &pos, &attrs)
+        cutil.decode_varint64(buf, self._buffer.len, &pos, &attrs)
 
         self._check_bounds(pos, 1)
-        cutil.decode_varint64(buf, &pos, &ts_delta)
+        cutil.decode_varint64(buf, self._buffer.len, &pos, &ts_delta)
         if self.attributes & _TIMESTAMP_TYPE_MASK:  # LOG_APPEND_TIME
             timestamp = self.max_timestamp
         else:
             timestamp = self.first_timestamp + ts_delta
 
         self._check_bounds(pos, 1)
-        cutil.decode_varint64(buf, &pos, &offset_delta)
+        cutil.decode_varint64(buf, self._buffer.len, &pos, &offset_delta)
         offset = self.base_offset + offset_delta
 
         self._check_bounds(pos, 1)
-        cutil.decode_varint64(buf, &pos, &key_len)
+        cutil.decode_varint64(buf, self._buffer.len, &pos, &key_len)
         if key_len >= 0:
             self._check_bounds(pos, <Py_ssize_t> key_len)
             key = PyBytes_FromStringAndSize(
@@ -328,7 +328,7 @@ cdef class DefaultRecordBatch:
             key = None
 
         self._check_bounds(pos, 1)
-        cutil.decode_varint64(buf, &pos, &value_len)
+        cutil.decode_varint64(buf, self._buffer.len, &pos, &value_len)
         if value_len >= 0:
             self._check_bounds(pos, <Py_ssize_t> value_len)
             value = PyBytes_FromStringAndSize(
@@ -338,14 +338,14 @@ cdef class DefaultRecordBatch:
             value = None
 
         self._check_bounds(pos, 1)
-        cutil.decode_varint64(buf, &pos, &header_count)
+        cutil.decode_varint64(buf, self._buffer.len, &pos, &header_count)
         if header_count < 0:
             raise CorruptRecordException("Found invalid number of record "
                                          "headers {}".format(header_count))
         headers = []
         while header_count > 0:
             # Header key is of type String, that can't be None
-            cutil.decode_varint64(buf, &pos, &key_len)
+            cutil.decode_varint64(buf, self._buffer.len, &pos, &key_len)
             if key_len < 0:
                 raise CorruptRecordException(
                     "Invalid negative header key size %d" % (key_len, ))
@@ -355,7 +355,7 @@ cdef class DefaultRecordBatch:
             pos += <Py_ssize_t> key_len
 
             # Value is of type NULLABLE_BYTES, so it can be None
-            cutil.decode_varint64(buf, &pos, &value_len)
+            cutil.decode_varint64(buf, self._buffer.len, &pos, &value_len)
             if value_len >= 0:
                 self._check_bounds(pos, <Py_ssize_t> value_len)
                 h_value = PyBytes_FromStringAndSize(
